@@ -67,6 +67,8 @@ def run(prog, rep, tier):
     apply(rep, "P2b", "the type profile overload dispatch reads equals the types of the top values after every push/pop/drop (stack class interpreted): no stack loses its results to a stale profile", r_core.p2b(prog, tier), 2)
     e9 = r_stream.e9(prog, tier)
     apply(rep, "E9", "the op engine as a whole yields exactly the stacks the documented meaning of the constructs gives, in order, for ~400 (quick) / 2500 (thorough) query trees (build.cc and op.cc interpreted end to end against a reference semantics)", e9, 10)
+    import r_pure as _rpq
+    apply(rep, "Q4c", "the copies the engine makes of a stack (one per `,` / `||` branch, per capture, per closure step, per constant pushed) never alias storage that `add` mutates in place: branches and inputs stay independent", _rpq.q4c(prog), 3)
     if tier == "thorough" and not os.environ.get("VERIF_NO_MUTANTS"):
         import mutants
         mutants.run_mutants("C01", rep)
